@@ -62,4 +62,10 @@ PROPS = {
  "C12": dict(cfgs=quick8,
    scope=lambda t: "the COMPLETE domain [-1,1] (131,073 raw values) under both square-root back-ends in every configuration; NaN clause on S(w,r) u +-NaN u a dense window beyond +-1",
    assumptions=COMMON_ASSUMPTIONS),
+ "C13": dict(cfgs=all48_thorough,
+   scope=lambda t: "sqrt_abacus, sqrt_std_math and sqrt() on every raw x of a dense prefix of [0,2^47) ([0,2^26) quick / [0,2^33) thorough), on S(w,r) up to 2^47, on ALL 11,863,283 exactly representable squares, and on negative arguments; monotonicity over the sorted enumeration",
+   assumptions=COMMON_ASSUMPTIONS + ["arguments in [2^33, 2^47) are covered on S(w,r) and the exact squares only"]),
+ "C14": dict(cfgs=quick8,
+   scope=lambda t: "hypot on every pair of P^2 (S-shaped operands with |.| < 2^47) and on threshold windows x P' in both orders, under both square-root back-ends; symmetry on every pair",
+   assumptions=COMMON_ASSUMPTIONS),
 }
